@@ -9,12 +9,15 @@ C05 — helper lemmas (umbrella): see Proofs/C05/*.lean
   Task.lean      one task / the task tree, for every environment
   Simple.lean    chunk-size bounds of simple_partitioner
   RV.lean        the range_vector ring refines a list
+  Stride.lean    index form: the regenerated count expressions / guards per Index type are exact
+  StrideIdx.lean index form: the regenerated body-wrapper index arithmetic is exact
 -/
 import TbbVerif.Proofs.C05.Task
 import TbbVerif.Proofs.C05.Range1
 import TbbVerif.Proofs.C05.RangeN
 import TbbVerif.Proofs.C05.Simple
 import TbbVerif.Proofs.C05.RV
+import TbbVerif.Proofs.C05.StrideIdx
 
 namespace TbbVerif.C05
 
